@@ -9,15 +9,15 @@ ids = [p["id"] for p in props]
 # id -> (design_ref, technique, level text, level note)
 CHECKS = {
     "C01": ("DESIGN.md §6 C01",
-            "explicit-state exploration of the real Window<u32> x VecDeque reference: every capacity 0..=254, every constructor, 2N+2 pushes, every observer and iterator split in every state; total enumeration of adversarial serialized forms",
+            "explicit-state exploration of the real Window<u32> x VecDeque reference: every capacity 0..=254, every constructor, 2N+2 pushes, every observer, every iterator split and every consuming adaptor (fold, sum, collect, nth, position, max, on the concrete iterator types after 0..n calls of next) in every state; total enumeration of adversarial serialized forms; thorough: closure explorations cross-checked against stateright (equal state counts)",
             "Every (capacity, rotation phase / fill level, observer) triple of the default build is visited and compared with a labelled FIFO model, including rebuilds through from_parts and serde; the space is finite and closed, so for the label alphabet the result is exhaustive. Parametricity lifts labels to all element types.",
             "Trusted: the VecDeque reference (a few lines), serde_json for the round trip, rustc's parametricity for Window<T: Clone>. Quick tier checks all iterator splits only for N <= 40 and boundary/phase-relative splits above; thorough checks every split for every N."),
     "C02": ("DESIGN.md §6 C02",
-            "exhaustive depth-bounded and deviation-bounded exploration of the real methods x from-scratch window definitions: every input sequence up to depth 8-10 over exact and rounding-active alphabets for lengths 1..6, every length 1..=254 with <=1 (quick) / <=2 (thorough) deviations from a flat stream, every Conv weight vector of length <=4 and unit/ones/ramp vectors of every length; containment in a fixed rounding radius",
+            "exhaustive depth-bounded and deviation-bounded exploration of the real methods x from-scratch window definitions: every input sequence up to depth 8-10 over exact and rounding-active alphabets for lengths 1..6, every length 1..=254 with <=1 (quick) / <=2 (thorough) deviations from a flat stream, every Conv weight vector of length <=4 and unit/ones/ramp vectors of every length; the same methods in tiny units (2^-60) and over both zeros / mixed signs; containment in a fixed rounding radius",
             "Each of the 19 finite-window methods is compared, on every transition and for next and peek, with its documented formula evaluated from scratch on the last n inputs (construction value as prehistory). The comparison is two-sided with the radius of DESIGN §4.2, so any formula, weight, window-offset or initialisation error beyond rounding is seen on every sequence within the bounds.",
             "Trusted: the reference definitions in mc/refmodel (my reading of the docs), the radius rule. Values outside the alphabets and streams with more than 2 deviations beyond the exhaustive depth are not executed."),
     "C03": ("DESIGN.md §6 C03",
-            "exhaustive depth-bounded (d<=7 quick / 9 thorough, lengths 1,2,3,4,5,7) and deviation-bounded (every length 1..=254, 1..=127 for WSMA; all 64 516 TSI pairs thorough) exploration of the real recursive methods x their documented recurrences folded over the whole stream",
+            "exhaustive depth-bounded (d<=7 quick / 9 thorough, lengths 1,2,3,4,5,7) and deviation-bounded (every length 1..=254, 1..=127 for WSMA; all 64 516 TSI pairs thorough) exploration of the real recursive methods x their documented recurrences folded over the whole stream; every subject also in tiny units (2^-60), TSI on 320-step flat tails",
             "EMA/DMA/TMA/DEMA/TEMA/RMA/WSMA/TSI/Vidya/TR/HeikinAshi/cumulative Integral and ADI are compared at every step with the recurrence written without mul_add; the radius of a recursive filter does not grow with the stream. An all-zero change window is an exact predicate (decides Vidya's branch exactly).",
             "Trusted: reference recurrences in mc/refmodel; Vidya on a 0/0 momentum follows the implementation's stated branch (returns its input)."),
     "C04": ("DESIGN.md §6 C04",
@@ -25,15 +25,15 @@ CHECKS = {
             "The algorithms only compare and copy, so a closed exploration over an alphabet of n+1 ordered values plus both zeros covers every behaviour class of a length-n window for streams of any length; outputs are compared exactly (up to the sign of zero), SMM's exported window must hold the last n inputs.",
             "Trusted: the order-pattern lifting argument, the sort-based reference. Lengths above 7 are covered by segment streams only."),
     "C05": ("DESIGN.md §6 C05, Appendix A, §12.5",
-            "exhaustive exploration of every indicator x independent reference formula (refmodel/src/ind, written from the doc comments): every candle sequence to depth 5-6 (6-7 thorough) over 6 candles + 2 state-dependent trend symbols for the default and a small-period configuration, to depth 4-5 with every MA kind in every MA slot and every source, the same candles in tiny units (x2^-40), 90-step (160) flat streams with <=1-2 deviations and sustained trends, every float parameter at 5 values on 300-step streams; containment of every returned value in value +- propagated radius",
+            "exhaustive exploration of every indicator x independent reference formula (refmodel/src/ind, written from the doc comments): every candle sequence to depth 5-6 (6-7 thorough) over 6 candles + 2 state-dependent trend symbols for the default and a small-period configuration, to depth 4-5 with every MA kind in every MA slot and every source, small-period variants starting at 2, 3 and 4 (every parity of every length), the same candles in tiny units (x2^-60), 90-step (120) flat streams with <=1-2 deviations and sustained trends, 640-step (900) zigzags on a steady trend, every float parameter at 5 values on 300-step streams, wide-period configurations (300 / 511) on 1300-step streams inside the u16 build (run by C20); containment of every returned value in value +- propagated radius (floor 16 eps at unit scale); reading-consistency oracle for the indicators with a recorded documentation-vs-code discrepancy",
             "There is no test of any indicator in the suite; here every indicator runs in lock-step with a from-scratch reference on every enumerated stream, so a swapped high/low, a wrong source, a wrong period wired to the wrong average or a wrong initialisation shows on the first transition that distinguishes them. Where a recorded documentation-vs-code discrepancy exists, a second implementation-reading reference separates it from any other deviation, so a recorded finding does not hide new defects of the same indicator.",
             "Trusted: the references are a reading of prose documentation (lines following the implementation are marked with a dagger in the files); the radius rules of DESIGN §4.2. Formula-undefined steps are exempt and counted."),
     "C06": ("DESIGN.md §6 C06, Appendix A, §12.5",
-            "the same explorations as C05 with the second oracle: the documented signal rule evaluated on the values the indicator itself returned (bit-exact replication of the crate's Cross / CrossAbove / CrossUnder / ReversalSignal / Action::from semantics), per-slot counters of buy / sell / silent verdicts as vacuity guard",
+            "the same explorations as C05 with the second oracle: the documented signal rule evaluated on the values the indicator itself returned (bit-exact replication of the crate's Cross / CrossAbove / CrossUnder / ReversalSignal / Action::from semantics), per-slot counters of buy / sell / silent verdicts over all systems as vacuity guard (every slot of every indicator is expected to buy, to sell and to be silent somewhere); a path on which an indicator follows the documented rule against its recorded implementation reading AND vice versa is a violation",
             "Signal logic is branchless boolean arithmetic where an inverted comparison compiles and passes everything; evaluating the documented rule on the indicator's own values makes the comparison exact (no rounding exemptions needed) on every explored stream.",
             "Trusted: my reading of each '# N signals' doc section; detector semantics from C14. Slots that never fire in a run are listed in the evidence (signal_slots_not_fully_exercised)."),
     "C07": ("DESIGN.md §6 C07",
-            "(1) closure BFS of the counter-carrying methods (reversal detectors, index/extremum/median selections, Past) over a 3-symbol alphabet - the product state contains the u8 counters, so the search runs through PeriodType::MAX and closes; (2) macro-step exploration: every script of <= 2 macro-steps 'feed L values of regime r' (L in 254,255,256,65 536 quick; up to 10^7 thorough; regimes volatile/flat/ramp/scale jump x2^20/negative) carries the REAL instance into a long history with the from-scratch definition compared at EVERY inner step (radius with the true t), then all micro-sequences of depth 1-2 from every state so reached; indicators: long-past instance vs a fresh instance primed with the recent window, in lock-step",
+            "(1) closure BFS of the counter-carrying methods (reversal detectors, index/extremum/median selections, Past) over a 3-symbol alphabet - the product state contains the u8 counters, so the search runs through PeriodType::MAX and closes; (2) macro-step exploration: every script of <= 2 macro-steps 'feed L values of regime r' (L in 254,255,256,65 536 quick; up to 10^7 thorough; regimes volatile/flat/ramp/scale jump x2^20/negative/exactly summable 0-2^44 swing/calm 0-1) carries the REAL instance into a long history with the from-scratch definition compared at EVERY inner step (radius with the true t), then all micro-sequences of depth 1-2 from every state so reached; indicators: long-past instance vs a fresh instance primed with the recent window, in lock-step",
             "A closed product space is a proof for every stream length over the alphabet; macro-steps make histories of 10^5-10^7 steps states of the explored graph instead of something a unit test would have to sample.",
             "Trusted: the definitional references and the linear allowance of DESIGN §4.2. Indicator-level comparison is deliberately coarse (1e-4, values skipped after a scale jump); 10^7-step histories only in the thorough tier and only along the scripted regimes."),
     "C08": ("DESIGN.md §6 C08",
@@ -41,23 +41,23 @@ CHECKS = {
             "Constancy is judged bitwise for exact kinds and signals and against a radius WITHOUT a factor t (free of drift) for arithmetic outputs; prefix invariance is a relation between two runs checked on every explored continuation.",
             "Trusted: the no-growth radius 16*eps*(n+8)*M. Cumulative/counting subjects (windowless Integral/ADI, ChaikinOscillator with window 0, CollapseTimeframe, Renko volume) are exempt as the property says; ParabolicSAR from its second step."),
     "C09": ("DESIGN.md §6 C09",
-            "total enumeration of every API form (over, call, apply, new_over, new_apply, into_fn, new_fn, with_history, with_last_value, mixed) x every chunking (all cut sets incl. empty chunks) x every input sequence up to length 4 (5 thorough) for every method and small parameter set, against a twin driven by next only; depth-bounded product exploration (original, identically built twin, clone driven down a different branch, clone continuing) with peek compared after every step; the same for every indicator incl. config/instance over, init_fn, into_fn and the Dyn over",
+            "total enumeration of every API form (over, call, apply, new_over, new_apply, into_fn, new_fn, with_history, with_last_value, mixed) x every chunking (all cut sets incl. empty chunks) x every input sequence up to length 4 (5 thorough) for every method and small parameter set, against a twin driven by next only; depth-bounded product exploration (the subject that lives on is always the CLONE; a twin rebuilt from the input history at every step, never cloned; a clone driven down a different branch) with peek compared after every step, over an integer and a rounding-active mixed-magnitude alphabet; the same for every indicator incl. config/instance over, init_fn, into_fn and the Dyn over",
             "Every way of cutting every short stream into chunks is enumerated, and BFS/DFS branching itself exercises clone independence at every state; outputs are compared bitwise.",
             "Trusted: element-by-element next as the oracle. Sequences of pairs do not implement Sequence, so VWMA/Cross* only have the functional and wrapper forms; methods taking dyn OHLCV only into_fn/with_history/with_last_value."),
     "C10": ("DESIGN.md §6 C10",
-            "total enumeration of constructor parameter grids (all 256 values of every PeriodType parameter, all 65 536 pairs for TSI and the three reversal detectors, Conv weight lengths around the limits, Renko sizes over a float list x all sources, 15 MA kinds x 256 lengths, every indicator field over all 256 values / float list / 15 kinds x boundary lengths, coupled fields pairwise over boundary values), followed by exhaustive short streams and 600-step deviation streams on every accepted instance; run in TWO builds of the same tree (release; ubcheck = overflow-checks + debug-assertions) whose findings are merged",
+            "total enumeration of constructor parameter grids (all 256 values of every PeriodType parameter, all 65 536 pairs for TSI and the three reversal detectors, Conv weight lengths around the limits, Renko sizes over a float list x all sources, 15 MA kinds x 256 lengths, every indicator field over all 256 values / float list / 15 kinds x boundary lengths, coupled fields pairwise over boundary values), followed by exhaustive short streams, 600-step deviation streams and 1400-candle (70 000 thorough) zigzags on a steady trend on every accepted instance; every text parser on garbage incl. a multi-byte character at every byte offset; run in TWO builds of the same tree (release; ubcheck = overflow-checks + debug-assertions) whose findings are merged",
             "Parameter spaces of 256 or 65 536 points are enumerated, not sampled; the ubcheck build turns an arithmetic overflow or a debug assertion - silent in release - into an observable panic of one enumerated case.",
             "Trusted: rustc's overflow checks / debug assertions as the overflow observer; documented minimal lengths taken from the doc comments (subject registry). Streams of valid finite inputs only."),
     "C11": ("DESIGN.md §6 C11",
-            "total enumeration of set(name, text) over every public parameter (= key of the serde-JSON form) x every value text of its type (all 256 integers, float list, source names, 15 kinds x lengths, booleans, garbage) and every foreign name, on static and dynamic configs; depth-bounded exploration of every default indicator comparing result shape and static-vs-dyn results on every stream",
+            "total enumeration of set(name, text) over every public parameter (= key of the serde-JSON form) x every value text of its type (all 256 integers, float list, source names, 15 kinds x lengths, booleans, garbage) and every foreign name, on static and dynamic configs, which must end in the same observable state (validity, results over a probe stream) after one and after two consecutive calls; depth-bounded exploration of every default indicator comparing result shape and static-vs-dyn results on every stream",
             "Generic, no per-indicator code: the parameter list is derived from the config's own serialized form, so a setter wired to the wrong field, a missing setter, a setter that mutates on error, a wrong size() or a diverging Dyn impl is seen for every indicator and every parameter.",
             "Trusted: serde-JSON key set == public parameters (checked by reading the structs); example::Example (private fields, no serde on its instance) gets the shape check only."),
     "C12": ("DESIGN.md §6 C12",
-            "exhaustive exploration of every indicator (default, small-period, period-3/4/5 and every MA kind for the monitored ones) over a rounding-active and a dyadic candle alphabet plus trend symbols, with the regime volatile -> exactly flat for 2*period+2 steps (macro-step) -> volatile built into the action alphabet; documented ranges/orderings/containments and finiteness monitored on every transition; dispersion methods explored the same way",
+            "exhaustive exploration of every indicator (default, small-period, period-3/4/5 and every MA kind for the monitored ones) over a rounding-active, a dyadic and an ulp-spread (high-low = 1..3 ulps) candle alphabet plus trend symbols, with the regime volatile -> exactly flat for 2*period+2 steps (macro-step) -> volatile built into the action alphabet; documented ranges/orderings/containments and finiteness monitored on every transition; dispersion methods explored the same way",
             "The range escapes the property worries about need a specific history shape (movement with rounding-active values, then an exactly flat stretch); that shape is part of the enumerated action alphabet, so every short movement prefix is followed by the flat regime and every continuation.",
             "Trusted: the monitors are reference-free statements of the documented ranges with a 1e-9 tolerance (rounding is <= 1e-13 at these magnitudes). Formula-undefined steps (zero total volume, zero variance) are exempt and counted."),
     "C13": ("DESIGN.md §6 C13",
-            "exploration of every method (small parameter sets, all rotation phases, warm-up, windowless, even/odd lengths) and every indicator (default, small-period and MA-kind configurations): at EVERY explored state the instance is serialized and restored, and original and restored instance are explored together over all continuations of depth 3 with bitwise comparison; adversarial SMM/Window forms; config round trips",
+            "exploration of every method (small parameter sets, all rotation phases, warm-up, windowless, even/odd lengths) and every indicator (default, small-period and MA-kind configurations): at EVERY explored state the instance is serialized and restored, and original and restored instance are explored together over all continuations of depth 3 with bitwise comparison; the same over a rounding-active mixed-magnitude alphabet and for the boundary parameters (largest legal windows); adversarial SMM/Window forms; config round trips",
             "A snapshot point is a state of the explored graph, so snapshot-at-every-state followed by product exploration covers every (snapshot point, short continuation) pair within the bounds; hand-written Deserialize impls (Window, SMM) are additionally fed malformed forms.",
             "Trusted: serde_json with float_roundtrip as the self-describing format. States holding NaN/inf are exempt (JSON cannot carry them; counted)."),
     "C14": ("DESIGN.md §6 C14",
@@ -65,11 +65,11 @@ CHECKS = {
             "The crossing detectors' state is the last difference, the reversal detectors' state a bounded window plus counters, so the product space closes and the verdict holds for streams of every length over the alphabet, including far beyond PeriodType::MAX.",
             "Trusted: the definitional oracles; reversal definition stated for the prescribed use (first input = construction value)."),
     "C15": ("DESIGN.md §6 C15",
-            "product exploration of related runs of the real MA instances (x and a*x+b for 8 affine maps; x, y and x+y) to depth 5-8 over exact and rounding-active alphabets and deviation-bounded for every length; impulse response of every linear kind for every length 1..=254 against the documented weight profile",
+            "product exploration of related runs of the real MA instances (x and a*x+b for 10 affine maps incl. the scales 2^-70 and 2^40; x, y and x+y) to depth 5-8 over exact and rounding-active alphabets and deviation-bounded for every length; impulse response of every linear kind for every length 1..=254 against the documented weight profile",
             "Algebraic laws relate different runs of the same code, so they are checked on every explored stream at once: affine equivariance and hull containment on every transition of the product, superposition on every pair of streams, and the impulse response (which determines a linear filter on all inputs) for all lengths.",
-            "Trusted: radii from the reference models of C02/C03, the closed-form weight profiles. Conv and VWMA are covered by C02's definitional check (their laws follow from it within the radius)."),
+            "Trusted: radii from the reference models of C02/C03, the closed-form weight profiles. Conv (4 weight vectors) and VWMA are explored for the affine and superposition laws too."),
     "C17": ("DESIGN.md §6 C17",
-            "closure BFS of CollapseTimeframe (periods 1..=5, 5 candles), depth-bounded batch-vs-stream-vs-sliding comparison, deviation-bounded periods up to 300; depth-bounded exploration of Renko over a STATE-DEPENDENT alphabet (price exactly on / one ulp inside / outside the next boundary read from the instance, mid-brick, 1.5/2/3.5-brick jumps, reversals) for 4 brick sizes x 3 sources; HeikinAshi validity over valid candles",
+            "closure BFS of CollapseTimeframe (periods 1..=5, 5 candles), depth-bounded batch-vs-stream-vs-sliding comparison, deviation-bounded periods up to 300; depth-bounded exploration of Renko over a STATE-DEPENDENT alphabet (price exactly on / one ulp inside / outside the next boundary read from the instance, mid-brick, 1.5/2/3.5-brick jumps, reversals) for 4 brick sizes x 3 sources; the boundaries the instance works with must be one brick beyond the last block in every state (initial block centred on the construction value); HeikinAshi validity over valid candles",
             "Boundary hits are enumerated rather than hoped for: the alphabet is computed from the thresholds the instance currently holds, so the truncation at an exact boundary, multi-brick jumps and reversals are all reached at every depth; the brick sequence, its volume and the iterator protocol are checked on every transition.",
             "Trusted: the aggregation model; the Renko thresholds are read through Serialize (stable API). RenkoOutput's OHLCV close (absolute step) is not judged."),
     "C16": ("DESIGN.md §6 C16",
@@ -77,15 +77,15 @@ CHECKS = {
             "The domain is finite, so the algebraic laws (conversion totality/sign/monotonicity/saturation, ratio range and round trip, negation involution, saturated subtraction, equality an equivalence, ordering vs equality) are decided on every element, pair and triple; float conversion is decided on every f32 in the thorough tier.",
             "Trusted: the integer model (Option<i32> strength) and exactness of |v|*255 in f64 for f32 inputs. f64 inputs are covered on +-1024 ulp neighbourhoods of all break points, not exhaustively."),
     "C18": ("DESIGN.md §6 C18",
-            "total enumeration of the 12^5 candle field grid x 12 previous closes, per-field 12^3 associativity triples plus cross-field triples, and of string families (all case masks, whitespace variants, edit-distance-1 neighbourhoods, all kind x length MA texts) against independent formulas and grammars",
+            "total enumeration of the 12^5 candle field grid x 12 previous closes, per-field 12^3 associativity triples plus cross-field triples, and of string families (all case masks, whitespace variants, edit-distance-1 and one-bit-flip neighbourhoods, all kind x length MA texts), Sequence::validate on all short sequences incl. finite values whose sums overflow, against independent formulas and grammars",
             "Every helper is a pure function of at most six floats; the grid holds every class of value the code distinguishes (NaN, infinities, signed zeros, subnormal, ordinary, huge) in every field position, so each identity and the validate predicate are decided on every combination of classes. Text parsing is decided on the complete edit-distance-1 neighbourhood of every accepted form.",
             "Trusted: the independently written formulas/predicate/grammars in c18.rs. Value identities are judged on finite operands with a 4-8 ulp radius; values between grid points are not executed."),
     "C19": ("DESIGN.md §6 C19",
-            "the same exhaustively enumerated program set (every input sequence to depth 3-4 for every method over small + boundary parameters incl. both zeros, every indicator in default/small/MA-kind configurations, Window observers and iterator splits, serde) executed in the default build, the unsafe_performance build and the unsafe_performance+debug-assertions build; per-program 128-bit digests compared; std's get_unchecked precondition checks and valgrind memcheck (Window/SMM blocks) as observers attached to the enumerated runs",
+            "the same exhaustively enumerated program set (every input sequence to depth 3-4 for every method over small + boundary parameters incl. both zeros, every indicator in default/small/MA-kind configurations, Window observers, iterator splits and consuming adaptors on the concrete iterator types, empty-window forms, a drop-ledger element type, rounding-active mixed-magnitude sequences, serde) executed in the default build, the unsafe_performance build and the unsafe_performance+debug-assertions build; per-program 128-bit digests compared; std's get_unchecked precondition checks and valgrind memcheck (Window/SMM blocks) as observers attached to the enumerated runs",
             "Every program is run in both builds and compared bit for bit (instance Debug text included, so an in-bounds wrong copy shows up too); an out-of-range unchecked index aborts the ub_checks build, an out-of-allocation raw copy is reported by memcheck; programs on which the default build panics are excluded as the property says.",
             "Trusted: rustc/std ub_checks, valgrind 3.19. Memory monitors see the enumerated programs only; Miri/ASan are not part of the registered commands."),
     "C20": ("DESIGN.md §6 C20",
-            "per-program output digests of the same enumerated program set compared across feature builds (default vs period_type_u16 [+u32, u64, u16+unsafe thorough]; f32 vs f32+unsafe, f32+u16 thorough), plus the definitional model-checking runs C01/C02/C04/C14 re-executed INSIDE the u16 build with window lengths 255..1000 (4096 thorough) and C02/C03/C04 (C15 thorough) inside the value_type_f32 build at eps = 2^-23",
+            "per-program output digests of the same enumerated program set compared across feature builds (default vs period_type_u16 [+u32, u64, u16+unsafe thorough]; f32 vs f32+unsafe, f32+u16 thorough), plus the definitional model-checking runs C01/C02/C04/C14 re-executed INSIDE the u16 build with window lengths 255..1000 (4096 thorough), C05/C06 inside the u16 build with one indicator parameter at a time at 300 / 511 on 1300-step streams, and C02/C03/C04 (C15 thorough) inside the value_type_f32 build at eps = 2^-23",
             "Width and precision are compile-time choices, so they are checked by building them: bit equality where the parameter fits the default type, and the same exhaustive definitional explorations where it does not or where precision differs.",
             "Trusted: output rendering independent of integer width. Programs the default build rejects but a wider build accepts (capacity differences such as WSMA length < MAX/2) are counted and excluded from the bit comparison; their Ok side is covered by the definitional re-runs."),
 }
@@ -121,7 +121,9 @@ manifest = {
     },
     "engines": [
         {"name": "mccore", "path": "/verif/mc/core", "serves_properties": sorted(CHECKS.keys()),
-         "kind_free_text": "own explicit-state explorer (BFS with 128-bit key deduplication to closure / depth / deviation bounds, parallel DFS for non-repeating real-valued states) over product states (real yata instance x reference model); total enumeration for finite pure-function domains"},
+         "kind_free_text": "own explicit-state explorer (layer-parallel BFS with 128-bit key deduplication to closure / depth / deviation bounds, work-stealing parallel DFS for non-repeating real-valued states) over product states (real yata instance x reference model); total enumeration for finite pure-function domains"},
+        {"name": "stateright", "path": "/verif/mc/checks/src/srx.rs", "serves_properties": ["C01", "C04", "C07", "C08", "C14", "C15", "C17"],
+         "kind_free_text": "stateright 0.31 BFS checker run on the same System (real yata code behind it) for every closure exploration of the thorough tier; the numbers of distinct states must equal the own engine's (cross-check of the engine, not a second oracle)"},
     ],
     "checks": checks,
     "not_applicable": [{"property_id": i, "reason": NOT_YET} for i in ids if i not in CHECKS],
